@@ -44,6 +44,9 @@ type RunPlan struct {
 	Middlewares int       `json:"middlewares"`
 	HashEvery   int       `json:"hash_every"`
 	NilAuth     bool      `json:"nil_auth,omitempty"` // leave the security hooks of the API nil (legal configuration)
+	NilCORS     bool      `json:"nil_cors,omitempty"` // leave API.CORSHandler nil
+	NilSpec     bool      `json:"nil_spec,omitempty"` // leave API.SpecFileHandler nil
+	CustomNotFound bool   `json:"custom_not_found,omitempty"` // install a NotFoundHandler
 	Reqs        []ReqPlan `json:"reqs"`
 }
 
@@ -402,7 +405,16 @@ func (e *env) setup() (restore func()) {
 		}
 		api.Elem().Field(p.MwField).Set(mws)
 	}
-	if p.CORSField >= 0 {
+	if p.NotFoundField >= 0 && e.plan.CustomNotFound {
+		var h http.Handler = http.HandlerFunc(func(w http.ResponseWriter, r *http.Request) {
+			e.trace("custom not-found " + r.URL.Path)
+			w.Header().Set("X-Not-Found", "1")
+			w.WriteHeader(404)
+			w.Write([]byte("nope"))
+		})
+		api.Elem().Field(p.NotFoundField).Set(reflect.ValueOf(&h).Elem())
+	}
+	if p.CORSField >= 0 && !e.plan.NilCORS {
 		ft := p.APIType.Field(p.CORSField).Type
 		if ft.Kind() == reflect.Func && ft.NumOut() == 1 && ft.Out(0) == handlerType {
 			api.Elem().Field(p.CORSField).Set(reflect.MakeFunc(ft, func(args []reflect.Value) []reflect.Value {
@@ -416,7 +428,7 @@ func (e *env) setup() (restore func()) {
 			}))
 		}
 	}
-	if p.SpecField >= 0 {
+	if p.SpecField >= 0 && !e.plan.NilSpec {
 		if f, ok := p.Funcs["SpecFileHandler"].(func() http.Handler); ok {
 			h := f()
 			api.Elem().Field(p.SpecField).Set(reflect.ValueOf(&h).Elem())
